@@ -369,7 +369,7 @@ fn run_on_host(h: &mut Host, c: &Case) -> Verdict {
                 13 => { o.size_limit = Some(0); "size limit 0".into() }
                 14 => { o.size_limit = Some(u64::MAX); "size limit MAX".into() }
                 15 => { o.stop_timeout_ms = Some(0); "stop timeout 0".into() }
-                16 => { o.stop_timeout_ms = Some(u64::MAX); "stop timeout u64::MAX ms".into() }
+                16 => { o.stop_timeout_ms = Some(u64::MAX); "stop timeout Duration::MAX".into() }
                 17 => { o.blamed = Some(h.b.p.threads[1].tid); "blamed = another thread".into() }
                 18 => { o.blamed = Some(std::process::id() as i32); "blamed = the checker itself".into() }
                 19 => { o.blamed = Some(0x7fff_fff0); "blamed = a tid that does not exist".into() }
